@@ -340,6 +340,33 @@ struct Route {
     rpki: Option<RpkiTable>,
 }
 
+/// last member of the final segment if that is a non-empty AS_SEQUENCE and the member is not 0
+fn last_seq_origin(b: &[u8]) -> Option<u32> {
+    let mut pos = 0usize;
+    let mut last: Option<(u8, Option<u32>)> = None;
+    while pos < b.len() {
+        if pos + 2 > b.len() {
+            return None;
+        }
+        let (t, n) = (b[pos], b[pos + 1] as usize);
+        if pos + 2 + 4 * n > b.len() {
+            return None;
+        }
+        let m = if n > 0 {
+            let o = pos + 2 + 4 * (n - 1);
+            Some(u32::from_be_bytes([b[o], b[o + 1], b[o + 2], b[o + 3]]))
+        } else {
+            None
+        };
+        last = Some((t, m));
+        pos += 2 + 4 * n;
+    }
+    match last {
+        Some((2, Some(a))) if a != 0 => Some(a),
+        _ => None,
+    }
+}
+
 /// `(tag x)` -> x (exactly one argument)
 fn one<'a>(t: &'a Term, tag: &str) -> Option<&'a Term> {
     let a = t.tagged(tag)?;
@@ -435,11 +462,12 @@ fn route_of(t: &Term) -> Option<Route> {
             match rp {
                 Rpki::Invalid => t.insert(packet::IpNet::new(naddr, mask), Arc::new(Roa::new(mask, 0, src.clone()))),
                 Rpki::Valid => {
-                    let asn = attrs
-                        .iter()
-                        .find(|a| a.code() == Attribute::AS_PATH)
-                        .and_then(|a| a.as_path_origin())
-                        .unwrap_or(source.local_asn);
+                    // only for paths that end in a non-empty AS_SEQUENCE whose last member is not AS 0
+                    // (every reading of RFC 6811 agrees on the origin AS of those)
+                    let asn = aattrs.iter().find(|a| a.code == Attribute::AS_PATH).and_then(|a| match &a.data {
+                        AData::Bin(b) => last_seq_origin(b),
+                        _ => None,
+                    })?;
                     t.insert(packet::IpNet::new(naddr, mask), Arc::new(Roa::new(mask, asn, src.clone())));
                 }
                 _ => {}
